@@ -52,8 +52,11 @@ def case_stats(case):
     if not res.success:
         return core.ood("unsuccessful-fit")
     vals = {p.label: float(p.value) for p in res.optimized_parameters.all()}
-    ref = S.reference(spec, vals=vals)
-    if ref["cond"] > 1e8:
+    try:
+        ref = S.reference(spec, vals=vals)
+    except np.linalg.LinAlgError:
+        return core.ood("fit-diverged-reference-not-evaluable")
+    if not np.isfinite(ref["cond"]) or ref["cond"] > 1e8:
         return core.ood("ill-conditioned")
     vs = []
     n_pen = sum(len(g) for g in ref["additional_penalty"])
